@@ -175,6 +175,7 @@ func vFlatten(e *vEx, prefix string, out map[string]string) {
 }
 
 //verif:witness H_C17_strings end
+//verif:bound C17 all string literals: every literal of 0..2 characters the lexer admits (5 plain characters, 8 escapes), alone and followed in the same expression (top level and nested) by a second literal (with an escape, empty, or ending in an escaped quote): each is unquoted on its own
 // H_C17_strings: every string literal of 0..2 characters the lexer admits (plain characters
 // from a boundary set, all eight escapes) is accepted and unquoted as written.
 func H_C17_strings() {
@@ -184,6 +185,15 @@ func H_C17_strings() {
 	vAssert(err == nil && got != nil, "string-literal-admitted-by-the-lexer-is-accepted")
 	if err == nil && got != nil {
 		vAssert(got["a"] == want && got["type"] == "T" && len(got) == 2, "string-literal-unquoted-as-written")
+	}
+	// the same literal followed by further literals in one expression (also nested): each is unquoted on its own
+	which := vChoose("second", 3)
+	second := [3]string{"\"p\\tq\"", "\"\"", "\"z\\\"\""}[which]
+	secondWant := [3]string{"p\tq", "", "z\""}[which]
+	got2, err2 := Parse("T{a=" + lit + ",b=" + second + ",c=U{d=" + second + "}}")
+	vAssert(err2 == nil && got2 != nil, "several-string-literals-accepted")
+	if err2 == nil && got2 != nil {
+		vAssert(got2["a"] == want && got2["b"] == secondWant && got2["c.d"] == secondWant && got2["c.type"] == "U" && len(got2) == 5, "each-string-literal-unquoted-on-its-own")
 	}
 	vReach("end")
 }
